@@ -32,6 +32,10 @@ def run(chk):
         r04_mol(chk, cr)
     if chk.want("R04.5"):
         r04_5(chk, repo, cr)
+    chk.rule("R04.7", "image labelling: a unit-cell molecule takes the index of a unique molecule only when both have the same parent-site "
+                      "indices (asymmetric_unit_atoms); the unique molecules are numbered by their position in the returned list", 2)
+    if chk.want("R04.7"):
+        r04_7(chk, cr)
     chk.rule("R04.8", "memo discipline of class Crystal (= C14 R14.2): every state-changing method drops every memoised quantity, including any newly introduced cache", 2)
     if chk.want("R04.8"):
         from .c14 import crystal_memo_rule
@@ -262,3 +266,36 @@ def r04_5(chk, repo, cr):
                     chk.ob("R04.5", rel, qual, "per-atom arrays of two molecules are compared with numpy.array_equal (length-safe)",
                            True, node=e.node, fingerprint=f"array_equal:{sorted(owners)}")
     chk.need(sites >= 2, f"expected >= 2 cross-molecule array comparisons, found {sites}")
+
+
+# ------------------------------------------------------------------------------------------------ R04.7
+def r04_7(chk, cr):
+    """Which per-atom property decides that a unit-cell molecule is an image of a unique molecule?
+
+    Parent-site indices identify the asymmetric-unit atoms a molecule is built from; labels and elements do not
+    (nothing makes labels unique, and two independent molecules may be chemically identical)."""
+    q = "Crystal.symmetry_unique_molecules"
+    ev = cr.ev(q)
+    chk.saw(CR, q)
+    stores = [e for e in ev.events if e.kind == "store" and e.target.key().endswith(".properties['asym_mol_idx']")]
+    chk.need(len(stores) >= 2, f"{q}: expected the numbering store and the image-labelling store of asym_mol_idx")
+    numbering = [e for e in stores if e.value.as_atom() and e.value.as_atom()[0] == "lv"]
+    chk.ob("R04.7", CR, q, "unique molecules are numbered by the enumerate index of the returned list", len(numbering) == 1 and
+           numbering[0].loops[-1].kind == "enumerate" and numbering[0].value.key() == numbering[0].loops[-1].index.key(),
+           node=numbering[0].node if numbering else None, fingerprint="numbering", found=[str(e.value) for e in numbering])
+    for e in stores:
+        if e in numbering:
+            continue
+        # property names that decide the match: in the dominating guards and in the stored value
+        names = set()
+        terms = [c for c, pol in e.guards if pol] + [e.value]
+        for t in terms:
+            for a in find_atoms(t, lambda a: a[0] == "sub" and a[1].key().endswith(".properties") and len(a[2]) == 1):
+                sv = a[2][0].as_atom()
+                if sv and sv[0] == "str":
+                    names.add(sv[1])
+        keyed = names - {"asym_mol_idx"}
+        if not keyed:
+            raise AnalysisError(f"{q}: the test that matches an image to its unique molecule was not found")
+        chk.ob("R04.7", CR, q, "an image is matched to its unique molecule by equality of the parent-site indices", keyed == {"asymmetric_unit_atoms"},
+               node=e.node, fingerprint="match-key", expected="asymmetric_unit_atoms", found=sorted(keyed))
